@@ -72,8 +72,9 @@ def run_scenario(ctx, report, name, spec, timeout_ms):
                 got = OUT['names'] or {}
                 want = spec.names
                 extra = {'scenario': name, 'spec': spec, 'model': None, 'pc': list(s2.pc), 'native_check': native_names}
-                if modcmp.tok(want['module']) != got.get('module'):
-                    vios.append(dict(key='names.module', what='[%s] module name %r emitted as %r' % (name, modcmp.tok(want['module']), got.get('module')), **extra))
+                wm = modcmp.tok(want['module']) if want.get('module') is not None else None
+                if wm != got.get('module'):
+                    vios.append(dict(key='names.module', what='[%s] module name %r emitted as %r' % (name, wm, got.get('module')), **extra))
                 for sub, kind in (('functions', 'func'), ('types', 'type'), ('tables', 'table'), ('memories', 'memory'), ('globals', 'global'), ('elements', 'element'), ('data', 'data')):
                     exp = {}
                     for i, nm in want.get(sub, {}).items():
@@ -144,11 +145,13 @@ def run(tier, seed, only=None):
     ctx = common.Ctx()
     timeout_ms = 60000 if tier == 'quick' else 600000
 
-    def go():
-        for v in ((0,) if tier == 'quick' else (0, 1, 2)):
-            run_scenario(ctx, report, 'named-module/variant%d' % v, named_spec(v), timeout_ms)
-    engine.run_in_big_stack(go)
-    report.bounds = {'names': 'one description (three in the thorough tier) with a module name and partial name maps for all eight index spaces plus locals (parameter, two used declared locals, one unused local)',
+    from obligations import gen
+    gl = gen.generated(tier, seed)
+    items = [('named-module/variant%d' % v, named_spec(v), timeout_ms) for v in ((0,) if tier == 'quick' else (0, 1, 2))]
+    items += [(n + '+names', gen.with_names(sp, k), timeout_ms) for k, (n, sp) in enumerate(gl)]
+    items = [i for i in items if not only or i[0] in only]
+    pc.run_parallel(ctx, report, run_scenario, items)
+    report.bounds = {'generated': gen.bounds_text(tier, len(gl)) + ', each with a name section naming a drawn subset (about 60%) of the entities of every index space and of the locals', 'names': 'one description (three in the thorough tier) with a module name and partial name maps for all eight index spaces plus locals (parameter, two used declared locals, one unused local)',
                      'renumbering': 'functions are re-sorted by size, types re-sorted, locals compacted; the expected attachment is derived from the renumbering recovered from the output'}
     report.assumptions = ['names are distinct concrete tokens; the name-section reader yields the described subsections in the order module, functions, locals, types, tables, memories, globals, elements, data',
                           'the name section follows the code section (as in every real module)']
